@@ -51,3 +51,27 @@ Definition nat_list_eqb := list_eqb Nat.eqb.
 Definition z_list_eqb := list_eqb Z.eqb.
 Definition z_list2_eqb := list_eqb z_list_eqb.
 Definition nat_list2_eqb := list_eqb nat_list_eqb.
+
+(* ---- bounded loops with early exit ----
+   [for _ in range(n): body] where the body may break.  [loop_nat] is the structural version the
+   theorems talk about; [loop_pos] runs the same loop on a binary bound (Python bounds such as
+   10**6 or 10**9 must never become unary numerals) and is proved equal to it in BaseProofs.v. *)
+Section Loop.
+  Context {S R : Type} (body : S -> S + R).
+  Fixpoint loop_nat (n : nat) (s : S) : S + R :=
+    match n with
+    | O => inl s
+    | Datatypes.S n' => match body s with inl s' => loop_nat n' s' | inr r => inr r end
+    end.
+  Fixpoint loop_pos (p : positive) (s : S) : S + R :=
+    match p with
+    | xH => body s
+    | xO p' => match loop_pos p' s with inl s' => loop_pos p' s' | inr r => inr r end
+    | xI p' => match body s with
+               | inl s1 => match loop_pos p' s1 with inl s2 => loop_pos p' s2 | inr r => inr r end
+               | inr r => inr r
+               end
+    end.
+  Definition loop_N (n : N) (s : S) : S + R :=
+    match n with N0 => inl s | Npos p => loop_pos p s end.
+End Loop.
